@@ -80,7 +80,7 @@ def hot(
             nonlocal is_stopped
 
             with lock:
-                for observer in observers:
+                for observer in list(observers):
                     notification.accept(observer)
 
                 if notification.kind in ("C", "E"):
